@@ -31,6 +31,7 @@
 #include <fcntl.h>
 #include <dlfcn.h>
 #include <errno.h>
+#include <signal.h>
 #include <thread>
 #include <mutex>
 #include <condition_variable>
@@ -307,7 +308,8 @@ static void do_op(scenario *sc,op_t const &o)
 	}
 	else if(o.name=="pw" && o.a.size()==1) {
 		size_t i=strtoul(o.a[0].c_str(),0,10);
-		if(i<sc->peers.size()) { char c='x'; if(::write(sc->peers[i],&c,1)!=1) sc->bad=true; }
+		// the other end may have been closed by the script already (EPIPE): the byte is then simply not delivered
+		if(i<sc->peers.size()) { char c='x'; (void)::send(sc->peers[i],&c,1,MSG_NOSIGNAL|MSG_DONTWAIT); }
 	}
 	else if(o.name=="dr" && o.a.size()==1) {
 		size_t i=strtoul(o.a[0].c_str(),0,10);
@@ -651,7 +653,7 @@ static std::string run_free_case(std::vector<std::string> const &w,int backend)
 						if(std::this_thread::get_id()!=loop_id) h->off_loop++;
 						char buf[64]; while(::recv(pp->s->native(),buf,sizeof(buf),MSG_DONTWAIT)>0) ;
 						h->calls++; pp->rd_pending=0; });
-					if(r.below(3)) { char c='x'; (void)::write(p.peer,&c,1); }
+					if(r.below(3)) { char c='x'; (void)::send(p.peer,&c,1,MSG_NOSIGNAL|MSG_DONTWAIT); }
 					break; }
 				case 4: {
 					if(p.wr_pending.load()!=0) break;
@@ -711,6 +713,7 @@ static std::string run_free_case(std::vector<std::string> const &w,int backend)
 int main(int argc,char **argv)
 {
 	int backend=io::reactor::use_default;
+	signal(SIGPIPE,SIG_IGN);
 	if(argc>1) {
 		std::string b=argv[1];
 		if(b=="epoll") backend=io::reactor::use_epoll;
